@@ -682,7 +682,7 @@ func c10Instances(add func(*Instance), thorough bool) {
 	// 1. arbitrary byte strings of every length up to the bound, every entry point
 	maxL, tail := 12, []int{14, 16}
 	if thorough {
-		maxL, tail = 16, []int{18, 20, 22, 24}
+		maxL, tail = 16, []int{18, 20, 22} // L = 24 does not finish within the per-instance budget
 	}
 	for rd := 0; rd <= 5; rd++ {
 		for L := 0; L <= maxL; L++ {
@@ -697,8 +697,21 @@ func c10Instances(add func(*Instance), thorough bool) {
 		if b.p["ak"] == 0 || b.p["ac0"] == 100 || b.p["ac1"] == 100 || b.p["ac0"] == 14 {
 			continue
 		}
-		for _, rd := range []int{0, 1, 2, 3, 6} { // 6 = FromBase64 of the base64 text of the prefix
+		for rd := 0; rd <= 3; rd++ {
 			add(&Instance{Func: "VerifC10Prefix", Tier: b.tier, Params: with(b.p, "L", 7, "eff", 1, "acow", 0, "rd", rd)})
+		}
+		// FromBase64 of the base64 text of the prefix: the last three proper prefixes (where padding appears); all
+		// prefixes only for the one- and two-chunk shapes (every prefix re-encodes and re-decodes the symbolic bytes)
+		pe := 3
+		if b.p["ak"] <= 2 && !thorough {
+			pe = 0
+		}
+		if b.p["ak"] <= 2 || !thorough {
+			tier := b.tier
+			if b.p["ak"] == 5 {
+				tier = 1 // five chunks with free keys: 20 s per prefix here, several minutes on a slower machine
+			}
+			add(&Instance{Func: "VerifC10Prefix", Tier: tier, Params: with(b.p, "L", 7, "eff", 1, "acow", 0, "rd", 6, "pe", pe)})
 		}
 	}
 	for _, pb := range []int{0, 8160, 8195} {
